@@ -280,6 +280,57 @@ func insideString(prog string, k int) bool {
 	return false
 }
 
+// --- root cause 4: split/1 does not quote a backslash -----------------------------
+
+const sigBackslash = "split/1-backslash-in-separator-not-quoted"
+
+// splitBackslash records the fourth root cause classified by a test: fq's split/1
+// turns the separator into a regular expression with _re_quote_meta
+// (pkg/interp/binary.jq), whose character class lacks the backslash, so a
+// backslash in the separator acts as a regex escape.
+func (d *differ) splitBackslash(prog string, input any, ref, fo Obs) {
+	r := d.r
+	r.Count("split1_backslash_differences", 1)
+	if r.Counter("split1_backslash_differences") == 1 {
+		r.Violate(sigBackslash,
+			fmt.Sprintf("split/1 treats a backslash in the separator as a regex escape; e.g. program `%s` input %s: reference gojq -> %v ; fq -> %v ; identical when every backslash of the separator is doubled first", prog, canon(input), ref, fo),
+			Case{Section: d.section, Program: prog, Input: canon(input)})
+	}
+}
+
+// quoteBackslashInSplit1 rewrites every call `split(A)` into
+// `split((A) | if type == "string" then gsub("\\\\"; "\\\\") else . end)`: each backslash of
+// a string separator is doubled, which is exactly the quoting _re_quote_meta omits.
+func quoteBackslashInSplit1(prog string) (string, bool) {
+	found := false
+	var rec func(s string) string
+	rec = func(s string) string {
+		var b strings.Builder
+		i := 0
+		for i < len(s) {
+			if s[i] == '"' {
+				i = copyString(s, i, rec, &b)
+				continue
+			}
+			if strings.HasPrefix(s[i:], "split(") && (i == 0 || !isIdentByte(s[i-1])) && !strings.HasSuffix(s[:i], "def ") {
+				open := i + len("split")
+				end, semis := matchParen(s, open)
+				if end > 0 && len(semis) == 0 {
+					found = true
+					b.WriteString("split((" + rec(s[open+1:end]) + ") | if type == \"string\" then gsub(\"\\\\\\\\\"; \"\\\\\\\\\") else . end)")
+					i = end + 1
+					continue
+				}
+			}
+			b.WriteByte(s[i])
+			i++
+		}
+		return b.String()
+	}
+	out := rec(prog)
+	return out, found
+}
+
 // --- not a finding: error message text ---------------------------------------
 
 const catchMask = `if type == "string" then "<message>" else . end`
@@ -438,13 +489,15 @@ func variantsOf(j int, prog string) []variant {
 	hasFJ := fromjsonRe.MatchString(prog)
 	_, hasSplit2 := reorderSplit2(prog)
 	_, hasPathSplit := nativeSplitInPath(prog)
-	applicable := []bool{hasCatch, hasSplit2, hasPathSplit, hasFJ}
-	names := []string{"msg", "split2", "pathsplit", "dv"}
+	_, hasSplit1 := quoteBackslashInSplit1(prog)
+	applicable := []bool{hasCatch, hasSplit2, hasPathSplit, hasFJ, hasSplit1}
+	names := []string{"msg", "split2", "pathsplit", "dv", "backslash"}
+	n := len(names)
 	// every non-empty combination of the applicable rewrites, fewest rewrites first
 	var masks []int
-	for m := 1; m < 16; m++ {
+	for m := 1; m < 1<<n; m++ {
 		ok := true
-		for b := 0; b < 4; b++ {
+		for b := 0; b < n; b++ {
 			if m&(1<<b) != 0 && !applicable[b] {
 				ok = false
 			}
@@ -462,8 +515,11 @@ func variantsOf(j int, prog string) []variant {
 			fqText = refText
 		}
 		if m&4 != 0 {
-			// before reorderSplit2, which moves text around
+			// before the rewrites that move text around
 			fqText, _ = nativeSplitInPath(fqText)
+		}
+		if m&16 != 0 {
+			fqText, _ = quoteBackslashInSplit1(fqText)
 		}
 		if m&2 != 0 {
 			fqText, _ = reorderSplit2Named(fqText)
@@ -471,7 +527,7 @@ func variantsOf(j int, prog string) []variant {
 		if m&8 != 0 {
 			fqText = viaToValue(fqText)
 		}
-		for b := 0; b < 4; b++ {
+		for b := 0; b < n; b++ {
 			if m&(1<<b) != 0 {
 				kind = append(kind, names[b])
 			}
@@ -485,6 +541,46 @@ func variantsOf(j int, prog string) []variant {
 		vs = append(vs, variant{j: j, kind: strings.Join(kind, "+"), fqText: fqText, refText: refText})
 	}
 	return vs
+}
+
+// record books an explained difference under the classes named in kind.
+func (d *differ) record(kind, prog string, input any, ref, fo Obs) {
+	if kind == "msg" {
+		d.r.Count("error_message_text_differs_only (messages are not compared)", 1)
+	}
+	if strings.Contains(kind, "dv") {
+		d.fromjsonDecodeValue(prog, input, ref, fo)
+	}
+	if strings.Contains(kind, "split2") {
+		d.split2Order(prog, input, ref, fo)
+	}
+	if strings.Contains(kind, "pathsplit") {
+		d.splitInPath(prog, input, ref, fo)
+	}
+	if strings.Contains(kind, "backslash") {
+		d.splitBackslash(prog, input, ref, fo)
+	}
+}
+
+// classify tries every variant of prog unbatched; true if one explains the
+// difference (which is then recorded).
+func (d *differ) classify(prog string, input any, ref, fo Obs) bool {
+	for _, v := range variantsOf(0, prog) {
+		vref := ref
+		if v.refText != prog {
+			code, err := refCompile(v.refText)
+			if err != nil {
+				continue
+			}
+			vref = refRun(code, input)
+		}
+		vfq, _ := d.fq.run(v.fqText, input)
+		if sameObs(vref, vfq) {
+			d.record(v.kind, prog, input, ref, fo)
+			return true
+		}
+	}
+	return false
 }
 
 // --- Go panics -------------------------------------------------------------------
